@@ -68,6 +68,16 @@ def table : List (Nat × Row) :=
   allCfgs.flatMap fun c => (0, run c none) ::
     (List.range nClasses).flatMap fun k => (List.range (plan c).length).map fun i => (k, run c (some i))
 
+/-- working directories the executed table starts the server from besides the source tree
+    (`harness/c19_trace.py`): the document root, a directory below it, a sibling whose path
+    starts with the root's path (`<root>-staging`), a directory below such a sibling -/
+def nStartDirs : Nat := 4
+
+/-- start-up does not depend on where the server is started from: for every chroot configuration
+    (without TLS) the fault-free row, once per start directory -/
+def cwdTable : List Row :=
+  (allCfgs.filter fun c => c.chroot && !c.tls).flatMap fun c => List.replicate nStartDirs (run c none)
+
 /-- `a` occurs before every occurrence of `b` (vacuous when `b` does not occur) -/
 def before (a b : Call) : List Call → Bool
   | [] => true
